@@ -931,6 +931,12 @@ pub mod fastq {
             }
 //@end
 
+//@fn fastq::Reader::policy ret=r tags=C09
+//@spec
+        ensures
+            [C09|fastq.policy.is_field] *r == self.buf_policy,
+//@end
+
 //@fn fastq::Reader::set_policy ret=r tags=C09
 //@spec
         requires
@@ -1030,6 +1036,13 @@ pub mod fastq {
             [C02,C03,C04,C05,C06|fastq.with_capacity.fresh] r.wf() && r.state == State::New && r.b().len() == 0 && r.clean() && r.cursor() == 0
                 && r.position.line == 1 && r.position.byte == 0,
             [C09|fastq.with_capacity.capacity] r.buf_reader.cap() >= capacity,
+//@end
+//@fn fastq::Reader::new ret=r tags=C02,C06,C09
+//@spec
+        ensures
+            [C02,C03,C04,C05,C06|fastq.new.fresh] r.wf() && r.state == State::New && r.b().len() == 0 && r.clean() && r.cursor() == 0
+                && r.position.line == 1 && r.position.byte == 0,
+            [C09|fastq.new.capacity] r.buf_reader.cap() >= BUFSIZE,
 //@end
 }
 
@@ -1270,6 +1283,13 @@ trait RecordD {
 //@spec
         ensures
             [C04|fastq.RecordSet.is_empty] r == (self.n() == 0),
+//@end
+//@fn fastq::RecordSet::shrink_buffer_to_fit tags=C04,C06
+//@spec
+        requires old(self).wf(),
+        ensures
+            [C04,C06|fastq.RecordSet.shrink_keeps_the_set] final(self).wf() && final(self).buffer@ == old(self).buffer@ && final(self).buf_positions == old(self).buf_positions
+                && final(self).n() == old(self).n(),
 //@end
 }
 
